@@ -370,6 +370,8 @@ func P4() []*Program {
 	shapes := []struct{ name, id string }{
 		{"lower", "order"}, {"upper", "ORDER"}, {"lowercamel", "orderQty"}, {"uppercamel", "OrderQty"},
 		{"snake", "order_qty"}, {"digits", "Order2Qty"}, {"underscore", "_order"}, {"acronym", "OrderID"},
+		// a name that is, as a whole, a common initialism (naming libraries keep tables of those)
+		{"initialism", "ID"},
 	}
 	var out []*Program
 	for _, s := range shapes {
